@@ -163,6 +163,12 @@ def main():
         if agree:
             nconform += 1
             run.add(ob.name, 'witness-ok', 0, dict(model=mrep, real=real))
+        elif mrep.get('ok') is False and real.get('ok') is False:
+            # model and real primitives agree that the scenario violates the property: a violation, replayed for real
+            v = run.report_violation(ob.name, f'{ob.name} {call}', dict(kind='crosshair', harness=f, func=fn, call=call,
+                                                                         env=ob.env, concrete=dict(mrep, real=real)),
+                                     f'scenario {call}: {real.get("what", real)}')
+            run.add(ob.name, v, 0, dict(model=mrep, real=real))
         else:
             run.add(ob.name, 'error', 0, dict(model=mrep, real=real))
             run.harness_error(f'contract model and real primitives disagree on {call}: model={mrep} real={real}')
